@@ -16,13 +16,14 @@
      wext w w'        = spent and signature tables of w' extend those of w (nothing removed or altered)
      same_but_calls   = nothing changed but the call counter
      settled w h      = the backend reports the own invoice with payment hash h as settled
+     ordered b a s p  = on every path of program p (for every response, so for every fault and cut) an event `a` is preceded by an event `b`
 
    no_inflation: hypotheses cfg_ok (a melt limit below 2^61 sat is configured, fee reserve <= amount), uint64 request amounts,
    truthful invoice notifications.  vS/vR = true sums of signature/spent amounts, vOut = commitments (amount+fee reserve) of PAID
    melt quotes, esett = 1 iff the backend reports the quote's invoice settled, cnt id cred = internal settlements credited to it.
 *)
 From Coq Require Import ZArith List Bool.
-From Verif Require Import Model Sem InvDb InvSwap InvMint InvMelt Corollaries Queries Footprint HRel Global GlobalQuote GlobalValue GlobalErr GlobalQuery GlobalMelt GlobalKeys Cuts.
+From Verif Require Import Model Sem InvDb InvSwap InvMint InvMelt Corollaries Queries Footprint HRel Global GlobalQuote GlobalValue GlobalErr GlobalQuery GlobalMelt GlobalKeys Cuts CutOrder.
 Import ListNotations.
 Open Scope Z_scope.
 
@@ -38,6 +39,13 @@ Theorem C02_no_inflation : forall (cfg : config) (h : list op),
         (forall q : lquote, In q (d_lq (w_db w)) -> lq_state q <> 1 -> rows_of_quote (lq_id q) (w_db w) = []).
 Proof. exact @no_inflation. Qed.
 Print Assumptions C02_no_inflation.
+
+Theorem C02_swap_cut_signatures_imply_spent : forall (mem_ks : list ksrow) (active : Z) (ins : list proof) (outs : list bmsg) 
+         (sg : bool) (n : nat) (f : oracle) (w : world),
+       let w' := fst (run_n n (swap mem_ks active ins outs sg) f w) in
+       d_sigs (w_db w') <> d_sigs (w_db w) -> incl (map (to_row 0) ins) (d_spent (w_db w')).
+Proof. exact @swap_cut_signatures_imply_spent. Qed.
+Print Assumptions C02_swap_cut_signatures_imply_spent.
 
 Theorem C02_swap_balanced : forall (mem_ks : list ksrow) (active : Z) (ins : list proof) (outs : list bmsg) 
          (sg : bool) (w w' : world) (sigs : list srow),
